@@ -43,11 +43,10 @@ Definition allow : list (string * string * string * reason) :=
     ("utils/deprecation.py", "<module>", "torch.ones", RDtypeProbe);
     ("utils/sparse.py", "sparse_eye", "torch.tensor", RNoOperator) ].
 
-(* known findings of the pinned tree: value allocations of ZeroLinearOperator that ignore the operator's dtype *)
-Definition known_untyped : list (string * string * string) :=
-  [ ("operators/zero_linear_operator.py", "ZeroLinearOperator._get_indices", "torch.zeros");
-    ("operators/zero_linear_operator.py", "ZeroLinearOperator.logdet", "torch.tensor");
-    ("operators/zero_linear_operator.py", "ZeroLinearOperator.to_dense", "torch.zeros") ].
+(* listed findings: value allocations that ignore the operator's dtype.  The three ZeroLinearOperator sites of the
+   pinned tree (_get_indices, logdet, to_dense) have been repaired (they pass dtype=self.dtype now): the list is empty,
+   a regression at those sites is reported like any other untyped allocation *)
+Definition known_untyped : list (string * string * string) := [].
 
 Definition same3 (s : site) (f g c : string) : bool :=
   String.eqb (s_file s) f && String.eqb (s_func s) g && String.eqb (s_callee s) c.
